@@ -1,10 +1,10 @@
 CONSTANTS
   Dev = {}
   Budget = 1
-  Shapes = {"secure3", "insecure3", "secure4", "insecure4"}
+  Shapes = {"secure3", "insecure3", "secure4", "insecure4", "entapex_s", "entapex_i", "entname_s", "entname_i"}
   Denials = {"nsec", "nsec3", "optout"}
   QKinds = {"positive", "wildcard", "nodata", "nxdomain", "cname1", "cname2", "ds", "dname", "dnamex"}
-  AdvActs = {"DropRrsig", "DropRrset", "ReplaceRdata", "WrongSigner", "Expire", "NotYetValid", "ForgeSigned", "AddBadSig", "CorruptKey", "CorruptDs", "StripProof", "ForgeNsecRange", "SwapProof", "BadNsec3Label", "BadNsec3LabelSigned", "ZeroCounts", "ZeroTtl", "Inject", "CnameLoop"}
+  AdvActs = {"DropRrsig", "DropRrset", "ReplaceRdata", "WrongSigner", "Expire", "NotYetValid", "ReplayAncestor", "ForgeSigned", "AddBadSig", "CorruptKey", "CorruptDs", "StripProof", "ForgeNsecRange", "SwapProof", "BadNsec3Label", "BadNsec3LabelSigned", "ZeroCounts", "ZeroTtl", "Inject", "CnameLoop"}
 SPECIFICATION Spec
 VIEW View
 INVARIANT Soundness
@@ -13,5 +13,6 @@ INVARIANT InsecureNotBogus
 INVARIANT WithinAllowed
 INVARIANT NoPanic
 INVARIANT Terminates
+INVARIANT Emit
 PROPERTY Termination
 CHECK_DEADLOCK TRUE
